@@ -251,6 +251,42 @@ def history_run(case, shared):
         return fw.obs(e)
 
 
+def work_integer_sequences(chunk):
+    """sequences stored with an integer dtype (integer limit, integer coefficients, integer steps 2^k ... 1): the same
+    numbers as their float copies, so every output slot is L as well"""
+    from numdifftools.extrapolation import Richardson
+    acc = fw.Acc()
+    for ratio, step, order, nt, length in chunk:
+        L = [7, -3, 1]
+        hs = [int(ratio) ** (length - 1 - i) for i in range(length)]
+        cols = []
+        for c, Lc in enumerate(L):
+            cols.append([Lc + sum((j + 1 + c) * h ** (order + step * j) for j in range(nt)) for h in hs])
+        if max(abs(v) for col in cols for v in col) >= 2 ** 52:
+            continue
+        seq = np.array(cols, dtype=np.int64).T
+        steps = np.array([hs] * len(L), dtype=np.int64).T
+        prob = None
+        try:
+            out, err, _ = Richardson(step_ratio=float(ratio), step=step, order=order, num_terms=nt)(seq, steps)
+            outf, errf, _ = Richardson(step_ratio=float(ratio), step=step, order=order, num_terms=nt)(seq.astype(float), steps.astype(float))
+            out, outf = np.asarray(out, dtype=float), np.asarray(outf, dtype=float)
+            scale = float(np.max(np.abs(seq)))
+            if out.shape != outf.shape:
+                prob = 'shape %r for the integer-typed sequence, %r for its float copy' % (out.shape, outf.shape)
+            elif not np.all(np.abs(out - outf) <= 1e-12 * scale):
+                prob = 'integer-typed sequence gives %r, its float copy %r (limits %r)' % (out[0].tolist(), outf[0].tolist(), L)
+        except Exception as e:      # noqa: BLE001
+            prob = 'raised %s: %s' % (type(e).__name__, e)
+        acc.case(('intseq', ratio, step, order, nt, length), nontrivial=nt > 0, cell='integer-sequence', outcome=prob is None)
+        if prob:
+            acc.violation('C07:real:call:integer-typed-sequence:terms=%d' % nt,
+                          dict(kind='intseq', ratio=ratio, step=step, order=order, num_terms=nt, length=length),
+                          'Richardson(step_ratio=%r, step=%d, order=%d, num_terms=%d) on an int64 sequence of length %d: %s'
+                          % (float(ratio), step, order, nt, length, prob), nt)
+    return acc
+
+
 def work_history(chunk):
     acc = fw.Acc()
     fw.pair_histories(acc, 'C07', 'richardson-object-reuse', history_cases(), history_run)
@@ -277,6 +313,8 @@ def run(ctx):
                         cases.append((ratio, step, order, nt, length, 2, rtype))
     acc = ctx.pmap(work, cases, chunk=100)
     acc.merge(ctx.pmap(work_history, [0], chunk=1))
+    acc.merge(ctx.pmap(work_integer_sequences, [(r, st, o, nt, ln) for r in (2, 3) for st in (1, 2) for o in (1, 2) for nt in (1, 2)
+                                                for ln in (nt + 1, nt + 3, 8)], chunk=8))
     for c in cases[:2] + cases[len(cases) // 2:len(cases) // 2 + 2] + cases[-2:]:
         acc.sample(dict(ratio=c[0], spacing=c[1], order=c[2], num_terms=c[3], length=c[4], columns=c[5]))
     req = ['%s/terms=%d' % (k, t) for k in ('real', 'complex') for t in range(1, 6)] + ['history/richardson-object-reuse']
@@ -293,6 +331,10 @@ def run(ctx):
 
 
 def replay(case):
+    if case.get('kind') == 'intseq':
+        a = work_integer_sequences([(case['ratio'], case['step'], case['order'], case['num_terms'], case['length'])])
+        bad = [r['detail'] for k, (n, recs) in a.viol.items() for r in recs]
+        return not bad, '%r -> %s' % (case, bad or 'ok')
     if case.get('kind') == 'history':
         cs = history_cases()
         a, b = cs[case['i']], cs[case['j']]
